@@ -181,6 +181,18 @@ check(
     "DESIGN.md §3 C19",
 )
 
+check(
+    "C10",
+    "engine-K",
+    "fault_enumeration",
+    "runtime monitoring with fault injection: sys.monitoring LINE crash-point injector (sitecustomize) in the real job process; offline checks over the job directory, the body's append-only log and the run lock",
+    "Every statement boundary of the task runner and the task body between TaskRunner.run and process exit is enumerated as the instant of SIGKILL, SIGTERM and SIGINT for four task "
+    "variants, on the real generated script and params.json; after each death: success marker only with a completed body, run lock obtainable by another process, failure marker after a "
+    "termination signal in the body, relaunch runs the body exactly when no success marker exists, no pid file after a natural end.",
+    "Trusted: crash points are statement boundaries (C-level calls are atomic for the injector); the pid file is written by the harness as the scheduler does.",
+    "DESIGN.md §2.5, §3 C10",
+)
+
 NOT_APPLICABLE = []
 
 
